@@ -297,7 +297,7 @@ Section Open.
     | [] => POk tt b
     | n :: nr => let* (zs, r) := rep fuel (N.pred n) r_number b in skip_ss_sizes fuel nr r
     end.
-  Definition skip_substreams (fuel : nat) (nfolders : N) (b : bytes) : pres unit :=
+  Definition skip_substreams (fuel : nat) (nfolders : N) (b : bytes) : pres (list N) :=
     let* (p, r) := r_u8 b in
     let* (np, r) := (if p =? P_NUM_UNPACK_STREAM
                      then let* (l, r') := rep fuel nfolders r_number r in let* (p', r'') := r_u8 r' in POk (l, p') r''
@@ -306,7 +306,7 @@ Section Open.
                     then let* (u, r') := skip_ss_sizes fuel (fst np) r in r_u8 r'
                     else POk (snd np) r) in
     let* (p, r) := (if p =? P_CRC then let* (u, r') := skip_crcs (sumN (fst np)) r in r_u8 r' else POk p r) in
-    expect_end p tt r.
+    expect_end p (fst np) r.
 
   (* _parse_encoded_header: `body` = the archive after its 32-byte start header.
      Returns the decompressed header (the new stream) and the state the two sub-parsers left behind. *)
@@ -320,14 +320,16 @@ Section Open.
     | [] => PBad
     | f0 :: _ =>
         let* (p, r) := r_u8 r in
-        let* (p, r) := (if p =? P_SUBSTREAMS then let* (u, r') := skip_substreams fuel (lenN fl) r in r_u8 r' else POk p r) in
-        if negb (p =? P_END) then PBad else
+        let* (np, r) := (if p =? P_SUBSTREAMS
+                         then let* (nus, r') := skip_substreams fuel (lenN fl) r in let* (p', r'') := r_u8 r' in POk (nus, p') r''
+                         else POk (map (fun _ => 1) fl, p) r) in
+        if negb (snd np =? P_END) then PBad else
         let pos := match pk with Some (q, _) => q | None => 0 end in
         let sizes := match pk with Some (_, z) => z | None => [] end in
         match f_coders f0 with
         | [] => PBad
         | cs => let* (d, u) := apply_chain_e (rev cs) (f_unpack f0) (read_at body pos (sumN sizes)) in
-                POk ({| p_pack := pk; p_folders := fl; p_nstreams := map (fun _ => 1) fl; p_sizes := []; p_files := [] |}, d) r
+                POk ({| p_pack := pk; p_folders := fl; p_nstreams := fst np; p_sizes := []; p_files := [] |}, d) r
         end
     end.
 
@@ -336,10 +338,11 @@ Section Open.
     let* (p, r) := r_u8 hdr in
     let* (sp, r) := (if p =? P_ENCODED_HEADER
                      then let* (sd, r') := parse_encoded_header fuel body r in
-                          let* (p', r'') := r_u8 (snd sd) in POk (fst sd, p') r''
-                     else POk (st0, p) r) in
-    if snd sp =? P_HEADER then parse_main_header fuel (fst sp) r
-    else if snd sp =? P_END then POk (fst sp) r
+                          let* (p', r'') := r_u8 (snd sd) in POk (fst sd, p', S (List.length (snd sd))) r''
+                     else POk (st0, p, fuel) r) in
+    let '(st, p, fuel2) := sp in
+    if p =? P_HEADER then parse_main_header fuel2 st r
+    else if p =? P_END then POk st r
     else PBad.
 
   (* _parse_header: signature, version, start-header CRC, end-header location and CRC.
@@ -363,7 +366,7 @@ Section Open.
   (* SevenZipReader(file): fuel for every loop = length of the stream being parsed + 1 *)
   Definition parse_7z (file : bytes) : pres pstate :=
     let* (hb, u) := open_7z file in
-    parse_end_header (S (length file)) (snd hb) (fst hb).
+    parse_end_header (S (List.length file)) (snd hb) (fst hb).
 End Open.
 
 (* the reader state a header description stands for *)
